@@ -1,5 +1,6 @@
 mod c08;
 mod c10;
+mod c10c;
 mod fx;
 use vkit::{Check, Level};
 extern "C" {
